@@ -15,6 +15,7 @@ R17.2  no static-storage variable is written / mutated by code reachable from Cp
        const objects, mutexes and the standard streams; memo tables are listed with the key they use.
 R17.4  a function-local static reachable from CppCheck::check is not initialised from parameters, locals or `this`
        (it would keep the first file's value for the whole run); run-constant exceptions are tabled.
+R17.5  Suppression::fileIndex (relative to one translation unit's file table) is read only by the per-unit comment processing.
 R17.3  option objects: every write to a member of Settings / Platform / Standards / Library in code reachable
        from CppCheck::check goes to a local copy (the base of the member expression, or the object a mutating
        method is called on, is a local non-reference variable), and CppCheck::mSettings is a const reference.
@@ -230,6 +231,20 @@ def run(ctx):
                            'function-local static %s (%s) in %s is initialised from %s: it keeps the value computed for the first file (language, settings, token) for every '
                            'later file of the run' % (x['n'], x.get('t'), f['name'], ', '.join(sorted(set(dep)))), where)
     ctx.floor('R17.4 function-local statics with an initialiser in the per-file analysis', nstat, 30)
+
+    # ---- R17.5 translation-unit relative indices in shared objects ----------------------------------------------------------
+    # Suppression::fileIndex is an index into the file table of the translation unit in which the inline suppression was parsed; the suppression list
+    # is shared by all files of the run.  Reading the index outside the code that handles that one translation unit's comments compares it with another
+    # unit's table (0 is every unit's own source file), so a later file changes what is reported for an earlier one.
+    ctx.rule('R17.5', 'the TU-relative Suppression::fileIndex is read only while the comments of that translation unit are processed')
+    readers = sorted({f['name'] for f in F.all_fns() for a in f['acc'] if a['n'] == 'SuppressionList::Suppression::fileIndex' and a['a'] == 'r'})
+    ALLOWED_READERS = {'addInlineSuppressions': 'runs once per translation unit on that unit\'s own comments (block begin/end matching)'}
+    ctx.floor('R17.5 readers of Suppression::fileIndex', len(readers), 1)
+    for r_ in readers:
+        ok = r_ in ALLOWED_READERS
+        ctx.ob('R17.5', 'fileindex-reader:%s' % r_, ok, ('%s reads Suppression::fileIndex: %s' % (r_, ALLOWED_READERS.get(r_))) if ok else
+               ('%s reads Suppression::fileIndex: the index is relative to the translation unit in which the suppression was parsed, but the suppression list is shared by all '
+                'files of a single-job run, so comparing it with the current file\'s indices lets one file mark or match the inline suppressions of another' % r_), 'lib/suppressions.h')
 
     # ---- R17.3 --------------------------------------------------------------------------------------------------------
     mutators = set()     # methods of option classes that write *this
